@@ -252,6 +252,8 @@ class Exec:
 
     def operand(self, p, s):
         s = s.strip()
+        if s.startswith("no_retag "):
+            s = s[len("no_retag "):]
         if s.startswith("copy ") or s.startswith("move "):
             return self.read_place(p, s[5:])
         if s.startswith("const "):
@@ -337,6 +339,8 @@ class Exec:
         dest = self.place(p, parse_place(lhs))
         r, pa, t = dest
         rhs = rhs.strip()
+        if rhs.startswith("no_retag "):
+            rhs = rhs[len("no_retag "):]
         m = re.fullmatch(r"([A-Za-z]+)\((.*)\)", rhs)
         if m and m.group(1) in ("Add", "Sub", "Mul", "Div", "Rem", "BitAnd", "BitOr", "BitXor", "Eq", "Ne", "Lt", "Le", "Gt", "Ge",
                                 "AddWithOverflow", "SubWithOverflow", "MulWithOverflow", "AddUnchecked", "SubUnchecked", "MulUnchecked",
@@ -600,9 +604,11 @@ class Exec:
                 if lhs is not None:
                     rt = (fn.ret or "()").strip()
                     if rt != "()":
-                        v = q.cells.get((sub.lroot + "_0", ()))
+                        r0 = sub.lroot + "_0"
+                        v = q.cells.get((r0, ()))
                         if v is None:
-                            v = ("agg", sub.lroot + "_0", ()) if not is_scalar_type(rt) else sub.read_cell(q, sub.lroot + "_0", (), rt)
+                            structured = any(k[0] == r0 and k[1] for k in q.cells) or any(k[0] == r0 for k in q.links)
+                            v = ("agg", r0, ()) if (structured or not is_scalar_type(rt)) else sub.read_cell(q, r0, (), rt)
                         self.set_ret(q, lhs, v)
                 if ret is None:
                     q.outcome = ("panic", "diverging call " + callee)
